@@ -136,6 +136,42 @@ def sweep(ctx, n):
                     if any(np.min(np.linalg.norm(P - g, axis=1)) > 1e-6 for g in glob):
                         bad("polyline-trace", f"a conductor vertex is not on the drawn line at path index {j}")
                         break
+        # displaying never alters objects: every class (both vertex orders of Tetrahedron, meshes, segments, sensors),
+        # alone or inside a collection, plotly and matplotlib; for Tetrahedron the drawn corners are the object's corners
+        from oracles.sources import CLASSES, make
+        from oracles.c08 import all_objs
+        import matplotlib
+        matplotlib.use("Agg")
+        for k in range(max(len(CLASSES) + 2, n // 2)):
+            nps = np.random.default_rng(rng.randrange(2**31))
+            cls = (CLASSES + ["Tetrahedron", "Sensor"])[k % (len(CLASSES) + 2)]
+            if cls == "Sensor":
+                o = magpy.Sensor(pixel=nps.uniform(-1, 1, (2, 2, 3)), position=nps.uniform(-1, 1, (2, 3)), handedness=rng.choice(["left", "right"]))
+            else:
+                o = make(cls, nps, path=rng.choice([1, 2]))
+            if cls == "Tetrahedron":
+                v = np.array(o.vertices)
+                kinds["tetra-count"] = kinds.get("tetra-count", 0) + 1
+                if (np.linalg.det(v[1:] - v[0]) < 0) != bool(kinds["tetra-count"] % 2):  # alternate left- and right-handed vertex orders
+                    o.vertices = v[[0, 1, 3, 2]]
+            top = magpy.Collection(o, magpy.Sensor(position=(3, 3, 3))) if rng.random() < 0.4 else o
+            objs = all_objs([top])
+            before = [snap_obj(x) for x in objs]
+            backend = "plotly" if k % 3 else "matplotlib"
+            fig = magpy.show(top, backend=backend, return_fig=True, style_path_frames=1)
+            if backend == "matplotlib":
+                import matplotlib.pyplot as plt
+                plt.close("all")
+            done += 1
+            kinds["no-alter:" + cls] = kinds.get("no-alter:" + cls, 0) + 1
+            if [snap_obj(x) for x in objs] != before:
+                bad(f"show-mutates:{cls}", f"show(backend={backend!r}) modified the object (geometry, pose, excitation, children or style)",
+                    {"class": cls, "backend": backend})
+            if cls == "Tetrahedron" and backend == "plotly" and top is o:
+                V = np.concatenate([xyz(t) for t in fig.data if type(t).__name__ == "Mesh3d"])
+                want = np.concatenate([o._orientation[j].apply(np.array(o.vertices)) + o._position[j] for j in range(len(o._position))])
+                if any(np.min(np.linalg.norm(V - w, axis=1)) > 1e-9 for w in want) or any(np.min(np.linalg.norm(want - q, axis=1)) > 1e-9 for q in V):
+                    bad("vertex-off-surface:Tetrahedron", "the drawn corners of a Tetrahedron are not its corners at its pose")
         # explicit frame lists, including indices beyond the path length (an object shorter than the index stays at its last pose)
         for trial in range(max(3, n // 6)):
             nps = np.random.default_rng(rng.randrange(2**31))
